@@ -20,7 +20,7 @@ def gen(rng):
     order = list(range(n))
     rng.shuffle(order)
     return {"npos": npos, "nkw": nkw, "fail": fail, "order": order, "pre": [rng.random() < 0.3 for _ in range(n)],
-            "fn_raises": rng.random() < 0.15, "env_threads": rng.randint(1, 3),
+            "fn_raises": rng.random() < 0.2, "fn_exc": rng.randrange(4), "env_threads": rng.randint(1, 3),
             # arguments whose VALUE is itself a future (pending / done / failed): passed to fn as they are
             "futvals": {str(i): rng.choice(["pending", "done", "failed"]) for i in range(1, n) if rng.random() < 0.12}}
 
@@ -45,7 +45,8 @@ def execute(p, chooser):
                 vals[int(i)] = inner
         obs["vals"] = vals
         boom = KeyError("input")
-        fnexc = ValueError("fn")
+        from concurrent.futures import CancelledError
+        fnexc = [ValueError("fn"), CancelledError(), StopIteration("fn"), TimeoutError("fn")][p.get("fn_exc", 0)]
 
         def fn(*a, **k):
             pend = [i for i, f in enumerate(futs) if f._state not in DONE]
